@@ -470,7 +470,8 @@ class Moment:
 
         operations = list(self.operations)
         for q in set(qubits) - self.qubits:
-            operations.append(ops.I(q))
+            identity = ops.I if q.dimension == 2 else ops.IdentityGate(qid_shape=(q.dimension,))
+            operations.append(identity.on(q))
         return Moment(*operations)
 
     @_compat.cached_method()
@@ -518,7 +519,8 @@ class Moment:
             return ''.join(qubit_to_col_subscript[q] for q in qs)
 
         def kraus_tensors(op: cirq.Operation) -> Sequence[np.ndarray]:
-            return tuple(np.reshape(k, (2, 2) * len(op.qubits)) for k in protocols.kraus(op))
+            shape = protocols.qid_shape(op)
+            return tuple(np.reshape(k, shape * 2) for k in protocols.kraus(op))
 
         input_subscripts = ','.join(
             row_subscripts(op.qubits) + col_subscripts(op.qubits) for op in self.operations
@@ -530,7 +532,7 @@ class Moment:
         transpose = input_subscripts + '->' + output_subscripts
 
         r = []
-        d = 2**n
+        d = int(np.prod([q.dimension for q in qubits]))
         kss = [kraus_tensors(op) for op in self.operations]
         for ks in itertools.product(*kss):
             k = np.einsum(transpose, *ks)
